@@ -54,14 +54,17 @@ type LStep struct {
 }
 
 type LCase struct {
-	Index int     `json:"index"`
-	Seed  uint64  `json:"seed"`
-	Max   int     `json:"max"`
-	Mode  string  `json:"mode"`
-	Min   int     `json:"min"`
-	Init  TBlind  `json:"init_blind"`
-	Steps []LStep `json:"steps"`
-	Note  string  `json:"note,omitempty"`
+	Index        int     `json:"index"`
+	Seed         uint64  `json:"seed"`
+	Max          int     `json:"max"`
+	Mode         string  `json:"mode"`
+	Min          int     `json:"min"`
+	Init         TBlind  `json:"init_blind"`
+	JoinAtCreate bool    `json:"join_at_create,omitempty"` // the players are handed to CreateTable (an MTT table created by the balancer)
+	Created      string  `json:"status_after_create,omitempty"`
+	Directed     string  `json:"directed,omitempty"` // late_level: blinds missing at start, supplied while the first open is being retried
+	Steps        []LStep `json:"steps"`
+	Note         string  `json:"note,omitempty"`
 }
 
 type lifeRun struct {
@@ -150,18 +153,26 @@ func genBlind(r *RNG) TBlind {
 func runLifeCase(c *LCase) {
 	r := NewRNG(c.Seed)
 	set := mkSetting(fmt.Sprintf("life-%d", c.Index), "default", c.Mode, c.Max, c.Min, c.Init.Ante, c.Init.Dealer, c.Init.SB, c.Init.BB, c.Init.Level, 10)
+	n := 2 + r.Intn(c.Max-1)
+	if c.JoinAtCreate {
+		for i := 0; i < n; i++ {
+			set.JoinPlayers = append(set.JoinPlayers, pt.JoinPlayer{PlayerID: pid(i + 1), RedeemChips: int64(20 + r.Intn(400)), Seat: -1})
+		}
+	}
 	d, err := NewDrv(set, 0)
 	if err != nil {
 		c.Note = "create failed"
 		return
 	}
+	c.Created = string(d.te.GetTable().State.Status)
 	d.keepTables = true
 	d.autoSetup = true
 	lr := &lifeRun{d: d, ids: map[string]int{}, c: c}
-	n := 2 + r.Intn(c.Max-1)
-	for i := 0; i < n; i++ {
-		chips := int64(20 + r.Intn(400))
-		d.te.PlayerReserve(pt.JoinPlayer{PlayerID: pid(i + 1), RedeemChips: chips, Seat: -1})
+	if !c.JoinAtCreate {
+		for i := 0; i < n; i++ {
+			chips := int64(20 + r.Intn(400))
+			d.te.PlayerReserve(pt.JoinPlayer{PlayerID: pid(i + 1), RedeemChips: chips, Seat: -1})
+		}
 	}
 	d.JoinAll()
 	d.Quiesce(quiesceLimit)
@@ -207,6 +218,39 @@ func runLifeCase(c *LCase) {
 		return &c.Steps[len(c.Steps)-1]
 	}
 	started := false
+	if c.Directed == "late_level" {
+		// the blinds are not (all) set when the game is started: the first open is refused and retried every 3 s; the
+		// level arrives during that wait; the hand the retry opens must be played at the level in force THEN
+		started = true
+		step("start", func(s *LStep) { d.te.StartTableGame() })
+		step("finish", func(s *LStep) {
+			o := pt.VerifOpenGameManager(d.te)
+			for id, p := range o.GetState().Participants {
+				if !p.IsReady {
+					d.te.PlayerSettlementFinish(id)
+				}
+			}
+		})
+		time.Sleep(time.Duration(300+r.Intn(1500)) * time.Millisecond)
+		b := genBlind(r)
+		if b.Level < 1 {
+			b.Level = 1
+		}
+		// the update is recorded as a step of its own (nothing else happens in it) ...
+		pre := lr.quiescentObs()
+		post := pre
+		post.Blind = b
+		bb := b
+		c.Steps = append(c.Steps, LStep{Op: "update_blind", Blind: &bb, Pre: pre, Post: post})
+		// ... and the engine's own retry (within 3 s) is observed from the state the update left
+		step("retry_wait", func(s *LStep) {
+			d.te.UpdateBlind(b.Level, b.Ante, b.Dealer, b.SB, b.BB)
+			s.Pre.Blind = b
+			for w := 0; w < 45 && d.te.GetTable().State.GameCount == 0; w++ {
+				time.Sleep(100 * time.Millisecond)
+			}
+		})
+	}
 	for k := 0; k < 90; k++ {
 		pre := lr.quiescentObs()
 		x := r.Intn(100)
@@ -300,7 +344,7 @@ func runLifeCase(c *LCase) {
 	}
 }
 
-func genLife(root *RNG, i int, seed uint64) LCase {
+func genLife(root *RNG, i int, seed uint64, mode string) LCase {
 	r := root.Fork(uint64(i))
 	c := LCase{Index: i, Seed: seed*1000211 + uint64(i), Max: 2 + r.Intn(7), Mode: "ct", Min: 2}
 	if r.Chance(1, 3) {
@@ -310,7 +354,11 @@ func genLife(root *RNG, i int, seed uint64) LCase {
 		c.Min = 3
 	}
 	c.Init = genBlind(r)
-	if r.Chance(1, 7) {
+	c.JoinAtCreate = r.Chance(1, 3)
+	if mode == "late_level" || r.Chance(1, 12) {
+		c.Directed = "late_level"
+	}
+	if c.Directed == "late_level" || r.Chance(1, 7) {
 		c.Init = TBlind{Level: 0, Ante: -1, Dealer: -1, SB: -1, BB: -1} // blinds not set yet
 		if r.Chance(1, 2) {
 			// ... or only partly: each field alone can be the one still missing
@@ -356,6 +404,8 @@ func (s LStep) Coq() string {
 		op = "LFinish"
 	case "timeout":
 		op = "LTimeout"
+	case "retry_wait":
+		op = "LRetry"
 	case "update_blind":
 		op = "(LUpdateBlind " + coqBlind(*s.Blind) + ")"
 	case "pause":
@@ -384,7 +434,11 @@ func (c LCase) Coq() string {
 	for i, s := range c.Steps {
 		xs[i] = s.Coq()
 	}
-	return fmt.Sprintf("mklc %d %s [%s]", c.Min, coqBlind(c.Init), strings.Join(xs, ";\n    "))
+	created := "None"
+	if c.Created != "" {
+		created = "(Some " + coqStatus(c.Created) + ")"
+	}
+	return fmt.Sprintf("mklc %d %s %v %s [%s]", c.Min, coqBlind(c.Init), c.JoinAtCreate && c.Mode == "mtt", created, strings.Join(xs, ";\n    "))
 }
 
 func runLife(opt Opts) error {
@@ -404,7 +458,7 @@ func runLife(opt Opts) error {
 	} else {
 		root := NewRNG(opt.Seed)
 		for i := 0; i < opt.N; i++ {
-			cases = append(cases, genLife(root, i, opt.Seed))
+			cases = append(cases, genLife(root, i, opt.Seed, opt.Mode))
 		}
 	}
 	if ij, err := json.Marshal(cases); err == nil {
